@@ -19,8 +19,9 @@ lists of line tokens joined by `.` (`_` = empty list).  The model side runs
 Verdict (on the implementation's observation, in the spec's own state `Left`, `Right`):
 after New: every chunk `ChunkOK`, ascending, disjoint, `patch Left chunks = Right`, `Edits` a valid
 script; after AddContext(n): every chunk `ChunkOK` and `CtxOf n` its New chunk, `Edits` unchanged;
-after Unify: every chunk `ChunkOK`, ascending, disjoint, not adjacent, `patch` gives Right,
-`Edits` unchanged; inputs unmodified.
+after Unify: every chunk `ChunkOK`, ascending, disjoint, not adjacent, `patch` gives Right, every
+chunk `CtxBounded n` (at most `n` Emit lines before the first / after the last change, at most `2n`
+between two changes), `Edits` unchanged; inputs unmodified.
 -/
 namespace MdsVerif.Drv.C13
 open MdsVerif.Drv MdsVerif.Model.Edit MdsVerif.Model.Mdiff MdsVerif.Spec
@@ -166,6 +167,7 @@ def specPipe (s : S) (n : Nat) (impl : String) : String :=
         (decide (Mdiff.Ascending c2), "after Unify: chunks not ascending and disjoint"),
         (decide (Mdiff.NonAdjacent c2), "after Unify: adjacent chunks were not merged"),
         (decide (Mdiff.patch L c2 = R), "after Unify: replacing each chunk's left range by its output does not give Right"),
+        (Mdiff.allCtxBoundedB n c2, s!"after AddContext({n}).Unify: a chunk has more than {n} context lines before its first or after its last change, or more than {2 * n} between two changes"),
         (decide (e2 = e0), "Unify disturbed Edits")]
     | _, _, _ => "bad unparsable observation"
   | _ => "bad unparsable observation"
